@@ -7,6 +7,19 @@ CLAIMED = {
  'C01': ('property-based testing: grammar-directed expression generation + bounded-exhaustive token enumeration vs a reference parser/evaluator (proptest, shrinking)',
          'Exploration: every accepted token sequence up to a bound plus thousands of random deep expressions on random trees agree byte-for-byte with an independent reference parser/evaluator/walker. Right level because the property quantifies over an unbounded grammar x trees; no absence claim.',
          'Trusts the reference evaluator (harness/src/engine/expr.rs), the reference walker (plain read_dir/lstat) and -sorted for a defined order; in-process find_main with 1/20 of cases through the binary.', 'DESIGN.md §3 C01'),
+
+ 'C02': ('property-based testing: generated trees x follow modes x depth bounds vs an independent reference walker (proptest, shrinking); unprivileged find binary for unreadable directories',
+         'Exploration: random trees with every link kind under -P/-H/-L/-follow, all (mindepth,maxdepth) pairs, -depth, several starting points; visited multiset equals the reference walk, cycle/unreadable/missing entries diagnosed with non-zero exit and siblings kept.',
+         'Trusts the reference walker (read_dir/lstat/stat + (dev,ino) ancestor chain). ELOOP self-links and the printing of the cycle-closing / unreadable entry itself are left open. One known finding (walkdir, -H -depth root link) is tolerated by exact signature.', 'DESIGN.md §3 C02'),
+ 'C03': ('property-based testing: bounded-exhaustive small trees x prune subsets + random trees/prune expressions vs reference DFS, with model-independent order invariants; raw-byte sibling order via inode sequence',
+         'Exploration: exact visit-sequence equality with the reference DFS for every tree of <=4 (thorough 5) nodes x every prune subset x pre/post order, plus random larger cases and non-UTF-8 sibling names.',
+         'Trusts the reference walker/evaluator; -sorted always given. Same known finding as C02 (own signature).', 'DESIGN.md §3 C03'),
+ 'C04': ('property-based testing: generated argument lists/line layouts/limit combinations against a reference batcher and validity predicates, through the xargs binary and a recorder command',
+         'Exploration: thousands of generated inputs x option subsets; observed invocation list equals the reference batcher and independently satisfies losslessness, each limit, and maximality; overflow cases give exit 1 and a prefix of the expected batches.',
+         'Trusts the reference batcher (DESIGN.md App. B) and the rec recorder; system ARG_MAX limiter never binding here.', 'DESIGN.md §3 C04'),
+ 'C05': ('property-based testing + bounded-exhaustive enumeration: all strings over a separator/quote/escape alphabet x all cut sets (chunking invariance, reference splitter), random byte strings x chunkings, delimiter modes; hook + binary end-to-end sample',
+         'Exploration: exhaustive over strings up to 6 (thorough 7, and 8 with single cuts) symbols x every way of cutting the stream; random inputs to ~20 KiB straddling the 4096-byte refill edge, invalid UTF-8 included.',
+         'Readers reached through the verif-hooks function read_args (chunk-controlled Read); 1/30 random cases also through the real binary and a pipe. Reference splitter covers only what the statement fixes.', 'DESIGN.md §3 C05'),
 }
 hooks_commits = subprocess.run(['git','-C','/repo','log','--format=%H %s'],capture_output=True,text=True).stdout.splitlines()
 hook_shas = [l.split()[0] for l in hooks_commits if 'verif hooks' in l]
